@@ -1,3 +1,11 @@
 import RV.C03.Props
 open RV.C03
-#print axioms placeholder
+#print axioms nt_lit_roundtrip
+#print axioms turtle_str_roundtrip
+#print axioms shorthand_relex
+#print axioms num_text_roundtrip
+#print axioms plain_double_relex
+#print axioms plain_int_relex
+#print axioms plain_decimal_relex
+#print axioms plain_bool_relex
+#print axioms unguarded_double_loses
